@@ -3,14 +3,14 @@ import json, random
 from vlib import core, mtlib
 from vlib.core import log
 from checks import mtcommon
-from checks.mtplans import run_plan, reader_cfgs, writer_cfgs
+from checks.mtplans import run_plan, reader_cfgs, writer_cfgs, run_replay
 
 
 def run(tier, replay=None):
     ctx = core.Check("C09", tier, "model_checking")
     core.build_harness()
     if replay:
-        return run_replay(ctx, replay)
+        return run_replay(ctx, {"C09"}, replay)
     quick = tier == "quick"
     plan = []
     R = mtlib.reader_consts
